@@ -311,11 +311,16 @@ func genRun(bin string, scs []*Scenario, env []string) {
 		genOne(p, s, dir)
 		// absence-of-progress verdicts (a handler that does not return, goroutines that stay) are only
 		// believed when a second, patient run shows them again
-		if g := s.Gen; !s.Crashed && (g.Hung || g.Leaked > 0) {
-			first := *g
+		if g := s.Gen; !s.Crashed && (g.Hung || g.Leaked > 0 || s.ReadErr != "") {
+			first, firstErr := *g, s.ReadErr
+			if err := p.Restart(); err != nil { // whatever is still running in there must not touch the second run
+				vlib.Infra("restart probe: %v", err)
+			}
 			genOne(p, s, dir)
-			if g := s.Gen; !s.Crashed && (g.Hung || g.Leaked > 0) {
-				s.direct("gen-defer:"+s.Kind+":handler-or-goroutines-do-not-end", fmt.Sprintf("twice: hung=%v leaked=%d (first run: hung=%v leaked=%d)\n%s", g.Hung, g.Leaked, first.Hung, first.Leaked, g.LeakStack))
+			if g := s.Gen; !s.Crashed && (g.Hung || g.Leaked > 0 || s.ReadErr != "") {
+				_ = p.Restart()
+				s.direct("gen-defer:"+s.Kind+":stream-handler-or-goroutines-do-not-end", fmt.Sprintf("twice: read error %q hung=%v leaked=%d (first run: read error %q hung=%v leaked=%d)\n%s",
+					s.ReadErr, g.Hung, g.Leaked, firstErr, first.Hung, first.Leaked, g.LeakStack))
 			}
 		}
 	}
